@@ -9,6 +9,8 @@ producer's answers: prefix replay, default = answer).  Oracle: reference fetch f
 """
 from __future__ import annotations
 
+import asyncio
+
 import ndn.encoding as enc
 from ndn import types as nt
 from ndn.app_support.segment_fetcher import segment_fetcher
@@ -56,6 +58,11 @@ def extra_configs():
         for n in (0, 2):
             for k in (range(n) if n else (None,)):
                 yield {'n': n, 'k': k, 'final': 'last-only' if n else 'absent', 'retry': retry, 'dv': True}
+    # two consumers of the same object at once on one application (no losses)
+    for n in (1, 2, 3):
+        for k in range(n):
+            for final in ('last-only', 'every', 'absent'):
+                yield {'n': n, 'k': k, 'final': final, 'retry': 1, 'twins': True}
     # the forwarder numbers its link-layer packets: every answer arrives in an LpPacket with a Sequence header
     for retry in (1, 2):
         for n in (0, 1, 3):
@@ -233,6 +240,18 @@ def execute(cfg, decisions):
                 out.terminal = 'invalid'
             except BaseException as e:  # noqa
                 out.terminal = f'error:{type(e).__name__}@{tb_where(e)}'
+        async def slow_twin():
+            # a second consumer of the same object on the same application, which does something else after every segment
+            try:
+                async for content in segment_fetcher(app, PREFIX, timeout=100, retry_times=cfg['retry'], validator=validator):
+                    out.yields2.append(bytes(content))
+                    await asyncio.sleep(0.005)
+                out.terminal2 = 'ok'
+            except BaseException as e:  # noqa
+                out.terminal2 = f'error:{type(e).__name__}@{tb_where(e)}'
+        out.yields2, out.terminal2 = [], None
+        if cfg.get('twins'):
+            loop.create_task(slow_twin())
         t = loop.create_task(consumer())
         loop.settle()
         out.done = t.done()
@@ -247,9 +266,19 @@ def judge(cfg, decisions, run):
     viol = []
     ys, term, reqs = reference(cfg, decisions)
     want = [b'whole-object' if y == 'U' else b'segment-%d' % y for y in ys]
-    tag = f"n={cfg['n']}|k={cfg['k']}|final={cfg['final']}" + ('|versioned' if cfg.get('ver') else '') + (f"|name-as-{cfg['form']}" if cfg.get('form') else '') + ('|numbered-envelopes' if cfg.get('lp') else '') + ('|default-validator' if cfg.get('dv') else '')
+    tag = f"n={cfg['n']}|k={cfg['k']}|final={cfg['final']}" + ('|versioned' if cfg.get('ver') else '') + (f"|name-as-{cfg['form']}" if cfg.get('form') else '') + ('|numbered-envelopes' if cfg.get('lp') else '') + ('|default-validator' if cfg.get('dv') else '') + ('|two-consumers' if cfg.get('twins') else '')
     if not run.done:
         viol.append(('C19|never-finishes', f'{tag}: fetch did not finish; decisions {decisions}'))
+        return viol
+    if cfg.get('twins'):
+        # two consumers at once: each gets the whole object; what the producer sees in which order is not claimed
+        for who, ys, term_ in (('first', run.yields, run.terminal), ('slow second', run.yields2, run.terminal2 if run.terminal2 in ('ok', None) else {'error:InterestTimeout': 'timeout'}.get(run.terminal2.split('@')[0], run.terminal2))):
+            if ys != want or term_ != term:
+                viol.append((f'C19|two-consumers|{"missing" if len(ys) < len(want) else "different"}',
+                             f'{tag}: the {who} of two concurrent consumers of the same object yielded {[y.decode() for y in ys]} and ended {term_} (a single consumer: {term}), '
+                             f'expected {[w.decode() for w in want]}'))
+        for f in run.failures:
+            viol.append((f"C19|task-error|{f['exception']}@{f['where']}", f'{tag}: {f}'))
         return viol
     if run.yields != want:
         kind = 'missing' if len(run.yields) < len(want) else ('extra' if len(run.yields) > len(want) else 'wrong-order')
@@ -325,14 +354,14 @@ def unit(arg):
         acc.transitions += run.attempts + run.steps
         acc.observe([cfg, list(prefix), [y.decode() for y in run.yields], run.terminal])
         acc.outcome(f"n={cfg['n']}|{run.terminal}|yields={len(run.yields)}")
-        acc.state((cfg['n'], cfg['k'], cfg['final'], cfg['retry'], cfg.get('ver'), cfg.get('form'), tuple(prefix), tuple(run.yields), run.terminal))
+        acc.state((cfg['n'], cfg['k'], cfg['final'], cfg['retry'], cfg.get('ver'), cfg.get('form'), cfg.get('twins'), cfg.get('lp'), cfg.get('dv'), tuple(prefix), tuple(run.yields), run.terminal))
         if any(d != 'a' for d in prefix) or (cfg['k'] or 0) > 0:
             acc.nontrivial += 1
         for sig, what in judge(cfg, list(prefix), run):
             acc.violation(sig, what, {'cfg': cfg, 'decisions': list(prefix)})
         if acc.evaluations % 300 == 1:
             acc.sample({'cfg': cfg, 'answers_per_attempt': list(prefix), 'yielded': [y.decode() for y in run.yields], 'end': run.terminal})
-    explore_cfg(cfg, arg['d'], on_run)
+    explore_cfg(cfg, 0 if cfg.get('twins') else arg['d'], on_run)
     acc.max_dev_completed = arg['d']
     return acc
 
